@@ -50,6 +50,31 @@ POSITIONS = {
     "dead_nested": "def f(a, b):\n    x = 0\n    return x\n    if a:\n        x = 1\n    else:\n{S2}\n",
     "nested_deep": "def f(a, b):\n    x = 0\n    while x < a:\n        if b:\n            for i in range(a):\n{S4}\n        x += 1\n    return x\n",
 }
+# ---- composed positions: every nesting of up to two contexts, the statement first / last in the innermost suite
+CONTEXTS = {
+    "if": "if a:\n{B}\nelse:\n    x = 3",
+    "else": "if a:\n    x = 3\nelse:\n{B}",
+    "elif": "if a:\n    x = 3\nelif b:\n{B}\nelse:\n    x = 4",
+    "while": "while x < a:\n    x += 1\n{B}",
+    "whileelse": "while x < a:\n    x += 1\nelse:\n{B}",
+    "for": "for i in range(a):\n{B}\n    x += i",
+    "forelse": "for i in range(a):\n    x += i\nelse:\n{B}",
+}
+
+
+def composed_positions():
+    out = {}
+    names = list(CONTEXTS)
+    for c1 in names:
+        for c2 in [None] + names:
+            for where in ("only", "before", "after"):
+                inner = {"only": "{S}", "before": "{S}\nx = 7", "after": "x = 7\n{S}"}[where]
+                body = CONTEXTS[c2].replace("{B}", textwrap.indent(inner, "    ")) if c2 else inner
+                whole = CONTEXTS[c1].replace("{B}", textwrap.indent(body, "    "))
+                out["%s/%s/%s" % (c1, c2 or "-", where)] = "def f(a, b):\n    x = 0\n" + textwrap.indent(whole, "    ") + "\n    return x\n"
+    return out
+
+
 CONTROL = [
     "def f(a, b):\n    x = 0\n    return x\n",
     "def f(a, b):\n    x = 0\n    if a:\n        x = 1\n    else:\n        x = 2\n    while x < b:\n        x += 1\n    else:\n        x = 5\n    for i in range(a):\n        x += i\n    return x\n",
@@ -89,9 +114,23 @@ def main(argv):
     if missing:
         raise tlc.MachineryError("no snippet for statement kinds %s of this interpreter" % missing)
     cases = []
+    composed = composed_positions()
+    allpos = dict(POSITIONS)
+    allpos.update(composed)
     for k in kinds:
-        for pos, tmpl in POSITIONS.items():
-            src = tmpl.format(S1=textwrap.indent(SNIPPET[k], "    "), S2=textwrap.indent(SNIPPET[k], "        "), S4=textwrap.indent(SNIPPET[k], "                "))
+        for pos, tmpl in allpos.items():
+            if pos in composed:
+                # substitute the snippet at the indentation of the placeholder
+                lines = []
+                for ln in tmpl.split("\n"):
+                    if "{S}" in ln:
+                        ind = ln[: len(ln) - len(ln.lstrip())]
+                        lines += [ind + x for x in SNIPPET[k].split("\n")]
+                    else:
+                        lines.append(ln)
+                src = "\n".join(lines)
+            else:
+                src = tmpl.format(S1=textwrap.indent(SNIPPET[k], "    "), S2=textwrap.indent(SNIPPET[k], "        "), S4=textwrap.indent(SNIPPET[k], "                "))
             try:
                 ast.parse(src)
             except SyntaxError as e:
@@ -110,7 +149,7 @@ def main(argv):
     try:
         p = os.path.join(d, "cases.json")
         with open(p, "w") as f:
-            json.dump({"kinds": kinds, "positions": list(POSITIONS), "cases": [{k: c[k] for k in ("kind", "pos", "unsupported", "outcome", "exc")} for c in cases]}, f)
+            json.dump({"kinds": kinds, "positions": list(allpos), "cases": [{k: c[k] for k in ("kind", "pos", "unsupported", "outcome", "exc")} for c in cases]}, f)
         r = tlc.run("Unsupported", CFG, {"CASES": p}, workers=1, timeout=600)
         if r.error:
             raise tlc.MachineryError("Unsupported: " + r.error[:2000])
@@ -128,9 +167,9 @@ def main(argv):
         tlc.cleanup(d)
     rep.coverage.update({
         "states": r.distinct, "transitions": r.generated, "traces_validated_against_impl": len(cases), "evaluations": len(cases),
-        "distinct_nontrivial": len(kinds) * len(POSITIONS),
+        "distinct_nontrivial": len(kinds) * len(allpos),
         "rule": "every ast.stmt subclass of the running interpreter outside the supported set (%d kinds, nested FunctionDef included) at every structural position "
-                "(%d templates), two supported control programs and %d non-function inputs; TLC certifies that the recorded cases are exactly kinds x positions" % (len(kinds), len(POSITIONS), len(NON_FUNCTION)),
+                "(%d templates), two supported control programs and %d non-function inputs; TLC certifies that the recorded cases are exactly kinds x positions" % (len(kinds), len(allpos), len(NON_FUNCTION)),
         "exhaustive": True, "exhaustive_scope": "statement kinds x position templates (a small finite model)",
         "samples": [{"kind": c["kind"], "pos": c["pos"], "outcome": c["outcome"]} for c in cases[:3]],
     })
